@@ -18,8 +18,8 @@ pub const SPEC: PropSpec = PropSpec {
 		"the step is (s >> 8) ^ T[(s ^ b) & 0xFF]; agreement on a GF(2) basis plus table linearity extends to all 2^64 x 256 pairs by an affine-map argument, not by observation (exhaustive: false)",
 		"a CRC collision between distinct canonical forms is counted as inconclusive",
 	],
-	cases: (40_000, 4_000_000),
-	secs: (45, 600),
+	cases: (50_000_000, 4_000_000_000),
+	secs: (30, 600),
 	required: &["fingerprints_ok", "spellings_agree", "edits_change_fingerprint", "step_pairs_checked"],
 	run_case,
 	once: Some(once),
